@@ -170,64 +170,12 @@ def check_class(prog, cd, rep, cname, amap, items, c):
                 rep.ok("handler-keeps-pair", f"{fq}: roll-back `{norm(st)}` " + ("is mirrored on the other list" if mirrored else "restores an alias of the live list (no-op): alignment is kept"), nontrivial=True)
             else:
                 rep.fail("handler-keeps-pair", mod, fq, st, f"the handler restores `{which}` only (from a copy or after a rebind): `{other}` keeps the partial additions and the lists diverge")
-    # 3/4 channel guards in the adder
+    # 3/4 channel guards in the adder - on path summaries: every way the adder reaches `<map>.append(V)`, with the
+    # conditions that hold on that path and V written over the parameters and the object's state
     f, appends = facts.adder_summary(prog, c, parallel_pairs(prog)[cname][3].name)
     sn = f.self_name or "self"
     fq = f"{cname}.{f.name}"
-    cfg = CFG(f.node)
-    from .c16 import raise_guards
-    guards = raise_guards(f.node)
-    for st in walk_no_nested(f.node):
-        if not (isinstance(st, ast.Expr) and isinstance(st.value, ast.Call) and isinstance(st.value.func, ast.Attribute) and st.value.func.attr == "append"
-                and is_self_attr(st.value.func.value, amap, sn)):
-            continue
-        v = st.value.args[0]
-        vn = norm(v)
-        membership = [g for g in guards if norm(g[0]).replace(" ", "") == f"{vn}inself.{amap}" and cfg.dominates(cfg.node_of(g[2]), cfg.node_of(st))]
-        if isinstance(v, ast.Name) and v.id in f.params:
-            # may have been defaulted before (channel = len(...)) - then it is also the automatic channel
-            if membership and membership[0][1] == "ValueError":
-                rep.ok("channel-unique-guard", f"{fq}: explicit channel refused with ValueError when already in `{amap}`", nontrivial=True)
-            elif membership:
-                rep.fail("channel-unique-guard", mod, fq, membership[0][2], f"a taken channel is refused with {membership[0][1]}, not ValueError")
-            else:
-                rep.fail("channel-unique-guard", mod, fq, st, f"`{amap}.append({vn})` is not dominated by `if {vn} in self.{amap}: raise ValueError`: duplicate channels can be created")
-            # automatic value assigned to the same name?
-            autos = [s for s in walk_no_nested(f.node) if isinstance(s, ast.Assign) and norm(s.targets[0]) == vn]
-            for s in autos:
-                if membership:
-                    rep.ok("auto-channel-fresh", f"{fq}: automatic channel `{norm(s.value)}` is tested for membership before the append (refusal, not reuse)")
-        else:
-            # automatic channel
-            defs = [s for s in walk_no_nested(f.node) if isinstance(s, ast.Assign) and norm(s.targets[0]) == vn]
-            vals = sorted(norm(s.value).replace(" ", "") for s in defs)
-            fresh = False
-            if vals == sorted(["0", f"max(self.{amap})+1"]):
-                # the 0 must be under an emptiness test
-                zero = next(s for s in defs if norm(s.value) == "0")
-                from ..mutrules import enclosing_tests
-                tests = [norm(t).replace(" ", "") for t, br in enclosing_tests(f.node, zero) if br]
-                if any(t in (f"len(self.{amap})==0", f"notself.{amap}") for t in tests):
-                    fresh = True
-            if membership:
-                fresh = True
-            if fresh:
-                rep.ok("auto-channel-fresh", f"{fq}: automatic channel is max(map)+1 (0 when empty) - provably not in use", nontrivial=True)
-            else:
-                rep.fail("auto-channel-fresh", mod, fq, st, f"automatic channel `{vn}` = {vals} is not provably unused (expected max(map)+1 / 0 when empty, or a membership test before the append)")
-    # explicit channel honoured: the automatic branch is selected by `channel is None` only (0 is a valid explicit channel)
-    chan_params = [p for p in f.params if any(isinstance(x, ast.Name) and x.id == p for st in walk_no_nested(f.node)
-                                              if isinstance(st, ast.Expr) and isinstance(st.value, ast.Call) and isinstance(st.value.func, ast.Attribute)
-                                              and st.value.func.attr == "append" and is_self_attr(st.value.func.value, amap, sn) for x in st.value.args)]
-    for cp in chan_params:
-        for st in walk_no_nested(f.node):
-            if isinstance(st, ast.If) and any(isinstance(x, ast.Name) and x.id == cp for x in ast.walk(st.test)) and not (st.body and isinstance(st.body[-1], ast.Raise)):
-                t = st.test
-                is_none = isinstance(t, ast.Compare) and len(t.ops) == 1 and isinstance(t.ops[0], (ast.Is, ast.IsNot, ast.Eq, ast.NotEq)) and norm(t.left) == cp and norm(t.comparators[0]) == "None"
-                if is_none:
-                    rep.ok("explicit-channel-honoured", f"{fq}: the automatic channel is chosen only when `{cp} is None`")
-                else:
-                    rep.fail("explicit-channel-honoured", mod, fq, st, f"`{norm(t)}` decides between automatic and explicit channel: an explicit channel 0 (falsy) is silently replaced by an automatic one")
+    adder_channel_rules(rep, mod, fq, f, amap, sn)
     # 5 container-kind: decoder installs
     u = cd.units.get(cname)
     if u is None:
@@ -294,6 +242,127 @@ def check_class(prog, cd, rep, cname, amap, items, c):
     else:
         rep.fail("encoding-order", u.writer.module.path.name, wfq, u.writer.node, f"the writer does not emit the whole `{amap}` followed by `{items}` in list order", construct=f"{wfq} order")
     return n_methods
+
+
+def adder_channel_rules(rep, mod, fq, f, amap, sn):
+    from ..facts import path_returns, split_ifexp
+    M = f"{sn}.{amap}"
+    paths = path_returns(f.node)
+
+    def flat(t, pol):
+        """atomic (test, polarity) facts implied by a guard"""
+        if isinstance(t, ast.UnaryOp) and isinstance(t.op, ast.Not):
+            return flat(t.operand, not pol)
+        if isinstance(t, ast.BoolOp) and ((isinstance(t.op, ast.And) and pol) or (isinstance(t.op, ast.Or) and not pol)):
+            return [x for v in t.values for x in flat(v, pol)]
+        return [(t, pol)]
+
+    def membership(t, pol):
+        """(expr text, present?) when the fact says <expr> in / not in the map"""
+        if isinstance(t, ast.Compare) and len(t.ops) == 1 and isinstance(t.ops[0], (ast.In, ast.NotIn)) and norm(t.comparators[0]) == M:
+            return norm(t.left), (pol if isinstance(t.ops[0], ast.In) else not pol)
+        return None
+
+    def emptiness(t, pol):
+        """True: the map is known empty; False: known non-empty"""
+        s_ = norm(t).replace(" ", "")
+        if s_ in (f"len({M})==0", f"0==len({M})", f"len({M})<1"):
+            return pol
+        if s_ in (f"len({M})!=0", f"len({M})>0", f"len({M})>=1", M, f"len({M})"):
+            return not pol
+        return None
+
+    def is_none(t, pol, p):
+        if isinstance(t, ast.Compare) and len(t.ops) == 1 and norm(t.left) == p and isinstance(t.comparators[0], ast.Constant) and t.comparators[0].value is None:
+            if isinstance(t.ops[0], (ast.Is, ast.Eq)):
+                return pol
+            if isinstance(t.ops[0], (ast.IsNot, ast.NotEq)):
+                return not pol
+        return None
+
+    # refusals of a taken channel
+    refusals = []  # (expr text, exception, node)
+    for pe in paths:
+        if pe.kind != "raise":
+            continue
+        exc = pe.value.func if isinstance(pe.value, ast.Call) else pe.value
+        for t, pol in pe.guards:
+            for a, apol in flat(t, pol):
+                m = membership(a, apol)
+                if m and m[1]:
+                    refusals.append((m[0], norm(exc) if exc is not None else "", pe.node))
+    seen = set()
+    n_app = 0
+    # parameters that are appended as they are on some path: the caller's explicit channel
+    explicit_params = set()
+    for pe in paths:
+        for e in pe.effects:
+            for call in ast.walk(e):
+                if isinstance(call, ast.Call) and isinstance(call.func, ast.Attribute) and call.func.attr == "append" and norm(call.func.value) == M and call.args:
+                    for _, V in split_ifexp(call.args[0]):
+                        if isinstance(V, ast.Name) and V.id in f.params:
+                            explicit_params.add(V.id)
+    for pe in paths:
+        if pe.kind == "raise":
+            continue
+        facts_ = [x for t, pol in pe.guards for x in flat(t, pol)]
+        for e in pe.effects:
+            for call in ast.walk(e):
+                if not (isinstance(call, ast.Call) and isinstance(call.func, ast.Attribute) and call.func.attr == "append" and norm(call.func.value) == M and call.args):
+                    continue
+                n_app += 1
+                X = call.args[0]
+                for conds, V in split_ifexp(X):
+                    fs = facts_ + [x for t, pol in conds for x in flat(t, pol)]
+                    vn = norm(V).replace(" ", "")
+                    absent = any((m := membership(a, pol)) and not m[1] and m[0] in (norm(X), norm(V)) for a, pol in fs)
+                    empt = [x for x in (emptiness(a, pol) for a, pol in fs) if x is not None]
+                    explicit = isinstance(V, ast.Name) and V.id in f.params
+                    key = (vn, explicit, absent)
+                    if explicit:
+                        # the caller's channel
+                        if absent:
+                            excs = [r for r in refusals if r[0] in (norm(X), norm(V))]
+                            bad = [r for r in excs if r[1] != "ValueError"]
+                            if bad:
+                                rep.fail("channel-unique-guard", mod, fq, bad[0][2], f"a taken channel is refused with {bad[0][1]}, not ValueError")
+                            elif not excs:
+                                rep.fail("channel-unique-guard", mod, fq, call, f"a channel already in `{amap}` is silently skipped instead of refused with ValueError")
+                            elif key not in seen:
+                                rep.ok("channel-unique-guard", f"{fq}: explicit channel refused with ValueError when already in `{amap}`", nontrivial=True)
+                        else:
+                            rep.fail("channel-unique-guard", mod, fq, call, f"`{amap}.append({norm(V)})` is reached without `{norm(V)} in self.{amap}` having been found false: duplicate channels can be created",
+                                     construct=f"{amap}.append({norm(V)}) unguarded")
+                    else:
+                        fresh = absent
+                        if vn in (f"max({M})+1", f"1+max({M})") and empt and not empt[-1]:
+                            fresh = True
+                        if vn == "0" and empt and empt[-1]:
+                            fresh = True
+                        if vn in (f"max({M},default=-1)+1", f"1+max({M},default=-1)"):
+                            fresh = True
+                        if fresh:
+                            if key not in seen:
+                                rep.ok("auto-channel-fresh", f"{fq}: automatic channel `{norm(V)}` is provably not in use on its path (max+1 / 0 when empty / membership refusal)", nontrivial=True)
+                        else:
+                            rep.fail("auto-channel-fresh", mod, fq, call, f"automatic channel `{norm(V)}` is not provably unused (expected max(map)+1 / 0 when empty, or a membership test before the append)",
+                                     construct=f"auto channel {norm(V)}")
+                        # explicit channel honoured: a value other than the caller's is appended only when the caller gave None
+                        chan_params = sorted(explicit_params)
+                        for cp in chan_params:
+                            nn = [x for x in (is_none(a, pol, cp) for a, pol in fs) if x is not None]
+                            if nn and nn[-1]:
+                                if (cp, vn) not in seen:
+                                    rep.ok("explicit-channel-honoured", f"{fq}: the automatic channel is chosen only when `{cp} is None`")
+                                seen.add((cp, vn))
+                            else:
+                                sel = [norm(a) for a, pol in fs if any(isinstance(x, ast.Name) and x.id == cp for x in ast.walk(a)) and membership(a, True) is None]
+                                if sel:
+                                    rep.fail("explicit-channel-honoured", mod, fq, call, f"`{sel[0]}` decides between automatic and explicit channel: an explicit channel 0 (falsy) is silently replaced by an automatic one",
+                                             construct=f"auto channel selected by {sel[0]}")
+                    seen.add(key)
+    if not n_app:
+        raise AnalysisError(f"{fq}: no `{amap}.append(...)` reached on any path (anchor vanished)")
 
 
 def run(prog, rep):
